@@ -18,6 +18,7 @@ import ASV.Proofs.ModulesLine
 import ASV.Proofs.ModulesBlocks
 import ASV.Proofs.ModulesHmm
 import ASV.Proofs.ModulesFeature
+import ASV.Proofs.ModulesReport
 namespace ASV.C14
 open ASV ASV.Modules ASV.Modules.T
 
@@ -346,6 +347,20 @@ theorem detected_feature_reload (m : Module) (hg : Good m) (doms : List FDomain)
   exact ⟨feature_roundtrip known _ (construct_again hf _ _ _ _ _) hk, rfl, hI.isComplete_eq,
          hI.isStarterModule_eq, hI.isTerminationModule_eq, hI.isIterative_eq⟩
 
+/-- 10c. which domain features go into the reported aSModule: `add_to_record` looks a component of
+    the gene holding the module up in that gene's dict (keyed by the hit) and every other component
+    in the dict of the component's OWN gene.  For every module the caller loop keeps (any holder),
+    the look-up succeeds and the domains found are, in order, the domain features of the
+    components' own genes — also when the neighbouring gene has an *equal* hit (tandem duplicates).
+    Gene names must be distinct (they key `cds_results`). -/
+theorem reported_domains_follow_components (genes : List Gene) (hn : (genes.map (·.name)).Nodup)
+    (h : ∀ g ∈ genes, InputOK g.domains g.name) (R : List GeneResult)
+    (hR : chainGo genes [] false = .ok R) (holder : String) :
+    ∀ r ∈ R, ∀ m ∈ r.modules, ∃ ds, lookupDomains (geneTables genes) holder m.components = .ok ds
+      ∧ ds.map some = m.components.map (fun c => geneTables genes c.locus c.domain)
+      ∧ ds.map (·.locus) = m.components.map (·.locus) :=
+  report_domains genes hn h R hR holder
+
 /-- the layout predicate read with indices: position `i` is checked against the components
     before it and after it -/
 theorem layout_by_index (cs : List Comp) : Spec.layout cs = Spec.layoutIdx cs :=
@@ -515,5 +530,18 @@ example : (match ModFeature.fromBiopython knownEx (ModFeature.toBiopython ⟨[fd
 /-- a domain on another strand is refused by the constructor -/
 example : (match ModFeature.construct [fd "d1", ⟨"d2", "gene", -1⟩] .pks true false false false with
            | .error .valueError => true | _ => false) = true := by decide
+
+
+/-! ### non-vacuity for 10c: tandem duplicates `a = b = [PCP, C, A]` with identical coordinates; the
+    merged module held by `a` is [C@a, A@a, PCP@b]: the PCP must be b's, not a's equal hit -/
+def dupDomains : List Domain := [⟨"PCP", [], 10, 90⟩, ⟨"Condensation_LCL", [], 110, 190⟩, ⟨"AMP-binding", [], 210, 290⟩]
+def dupGenes : List Gene := [⟨"a", 1, 0, dupDomains, false, 0⟩, ⟨"b", 1, 0, dupDomains, false, 1⟩]
+def mergedComps : List Comp :=
+  [⟨"Condensation_LCL", [], 110, 190, "a"⟩, ⟨"AMP-binding", [], 210, 290, "a"⟩, ⟨"PCP", [], 10, 90, "b"⟩]
+example : (match lookupDomains (geneTables dupGenes) "a" mergedComps with
+           | .ok ds => ds.map (·.locus) == ["a", "a", "b"]
+           | .error _ => false) = true := by decide
+/-- the equal hit is indeed in the holder's dict: looking there first would return a's PCP -/
+example : ((geneTables dupGenes "a" ⟨"PCP", [], 10, 90⟩).map (·.locus)) = some "a" := by decide
 
 end ASV.C14
